@@ -31,7 +31,9 @@ auto percentile(titerator begin, titerator end, const double percentage, const t
     {
         const auto lvalue = from_position(lpos);
         const auto rvalue = from_position(rpos);
-        return (lvalue + rvalue) / 2;
+        const auto sum    = lvalue + rvalue;
+        // NB: the sum of two large finite values can overflow, while their midpoint is always representable
+        return std::isfinite(sum) ? (sum / 2) : (lvalue / 2 + rvalue / 2);
     }
 }
 } // namespace detail
